@@ -194,12 +194,17 @@ func (histArea) Run(line string) string {
 		}
 	}
 	out := ""
+	childQuiet = f[0] == "hkill"
+	defer func() { childQuiet = false }()
 	for attempt := 0; attempt < 3; attempt++ {
 		var drift bool
 		out, drift = histOnce(f[0] == "hkill", kmode, s, injects, want, killKind, killIdx)
 		if !drift {
 			break
 		}
+	}
+	if strings.Contains(out, " NOTE:") || strings.HasPrefix(out, "strace:") {
+		return inconclusive(line, out)
 	}
 	return out
 }
@@ -223,8 +228,8 @@ func histOnce(kill, kmode bool, s scenario, injects []string, want map[string]in
 	note := ""
 	for _, c := range calls {
 		if c.canon == "" {
-			if c.inj {
-				note = " NOTE:injection-hit-a-call-outside-the-directory:" + c.name
+			if c.inj || (c.dead && !c.stdio) {
+				note = " NOTE:injection-or-kill-hit-a-call-outside-the-directory:" + c.name
 			}
 			continue
 		}
@@ -259,9 +264,9 @@ func histOnce(kill, kmode bool, s scenario, injects []string, want map[string]in
 		if res == "" {
 			res = "none"
 		}
-		return fmt.Sprintf("seq=%s res=%s dst=%s tmp=%s reader=%s%s%s%s", sq, res, fileState(dst), t, rs, tgt, note, targetCheck(dir, old)), note != ""
+		return fmt.Sprintf("seq=%s res=%s dst=%s tmp=%s reader=%s%s%s%s", sq, res, fileState(dst), t, rs, tgt, note, targetCheck(dir, old)), note != "" || strings.HasPrefix(rs, "BAD")
 	}
-	return fmt.Sprintf("seq=%s dst=%s tmp=%s reader=%s%s%s%s", sq, fileState(dst), t, rs, tgt, note, targetCheck(dir, old)), note != ""
+	return fmt.Sprintf("seq=%s dst=%s tmp=%s reader=%s%s%s%s", sq, fileState(dst), t, rs, tgt, note, targetCheck(dir, old)), note != "" || strings.HasPrefix(rs, "BAD")
 }
 
 // kindsSuffix: what the lines judged by the model with node kinds (Model/SafeFileKinds.lean) report in addition — the state
@@ -389,6 +394,9 @@ func (multiArea) Run(line string) string {
 			break
 		}
 	}
+	if strings.Contains(out, " NOTE:") || strings.HasPrefix(out, "strace:") {
+		return inconclusive(line, out)
+	}
 	return out
 }
 
@@ -410,8 +418,8 @@ func multiOnce(s scenario, cbFail int, cbMode string, injects []string, want map
 	note := ""
 	for _, c := range calls {
 		if c.canon == "" {
-			if c.inj {
-				note = " NOTE:injection-hit-a-call-outside-the-directory:" + c.name
+			if c.inj || (c.dead && !c.stdio) {
+				note = " NOTE:injection-or-kill-hit-a-call-outside-the-directory:" + c.name
 			}
 			continue
 		}
@@ -435,5 +443,5 @@ func multiOnce(s scenario, cbFail int, cbMode string, injects []string, want map
 	if res == "" {
 		res = "none"
 	}
-	return fmt.Sprintf("seq=%s res=%s dst=%s tmp=%s reader=%s%s%s", sq, res, fileState(dst), t, rs, note, targetCheck(dir, old)), note != ""
+	return fmt.Sprintf("seq=%s res=%s dst=%s tmp=%s reader=%s%s%s", sq, res, fileState(dst), t, rs, note, targetCheck(dir, old)), note != "" || strings.HasPrefix(rs, "BAD")
 }
